@@ -174,6 +174,12 @@ func (cf *ContractFile) directive(cur **FuncContract, pkg, body, path string, ln
 	}
 	mkClause := func(text string) (*Clause, error) {
 		c := &Clause{Text: text, Line: ln}
+		if strings.HasPrefix(text, "@") {
+			if j := strings.IndexAny(text, " \t"); j > 0 {
+				c.Mode = text[1:j]
+				text = strings.TrimSpace(text[j+1:])
+			}
+		}
 		if strings.HasPrefix(text, "[") {
 			if j := strings.Index(text, "]"); j > 0 {
 				c.Label = text[1:j]
